@@ -2,6 +2,7 @@
 """Regenerates the seeded-changes table of DESIGN.md section 11.6 from seeded/*/meta.json."""
 import json, glob, os, re
 NOTES = {
+ 'C18-r17-three-letter-language-truncated': 'Strengthened: first missed by both; the language tags now contain three-letter languages whose first two letters spell ja / en (jam, jam-JM, jam-Latn, jaa, jpx, enq, enm-GB), in the names table (C18) and in the reports (C17). The names functions are untouched by this change: the report check (C17) sees it.',
  'C16-r16-shared-copy-buffer-plain-readers': 'Strengthened: first missed; the concurrent exports now also go through ExportWith with a reader that has no WriteTo method.',
  'C18-r16-option-append-aliasing': 'Strengthened: first missed; a share of the reports takes its options from a longer list of which a prefix was used for another report before. The names functions are untouched by this change: the report check (C17) sees it.',
  'C10-r16-trimspace-name-bookkeeping': 'The vectors concerned are outside the acceptance language, so it is the acceptance check (C07) that reports them; C10 speaks of accepted vectors.',
